@@ -159,7 +159,7 @@ def run(tier, replay=None):
                 "From LV Require Import Base.NumOps Radial.RadialSym Radial.RadialNum gen.RadialCases.\n"
                 "Extraction Language OCaml.\nExtraction \"radnum.ml\" mkNumOps closed_value cases.\n")
             rcx, ox = sh(["coqc", "-Q", COQ, "LV", "ExtractRad.v"], cwd=tmp, check=False, timeout=600)
-            shutil.copy(os.path.join(OCAML, "drv_radnum.ml"), tmp)
+            shutil.copy(os.path.join(OCAML, "radnum_main.ml"), os.path.join(tmp, "drv_radnum.ml"))
             rcy, oy = sh(["ocamlfind", "ocamlopt", "-w", "-a", "radnum.mli", "radnum.ml", "drv_radnum.ml", "-o", "drv_radnum"], cwd=tmp, check=False, timeout=600) if rcx == 0 else (1, ox)
             if rcy != 0:
                 raise RuntimeError("extraction of the numeric radial model failed: " + (ox + oy)[-1500:])
